@@ -174,12 +174,12 @@ func c12perIPKernel(max int, ips []byte) func() {
 			if i >= 0 {
 				k = closes[i]
 			}
-			for ; k > 0; k-- {
-				if k == 2 {
-					staleOwners[pic]++
-				} else if i >= 0 && closes[i] == 2 {
-					staleOwners[pic]--
-				}
+			if k == 2 {
+				staleOwners[pic]++
+				pic.Close()
+				pic.Close()
+				staleOwners[pic]--
+			} else {
 				pic.Close()
 			}
 			if st.closed < 1 {
@@ -815,11 +815,15 @@ func TestVerif_C12(t *testing.T) {
 	// unconstrained under Serve or when three clients run, and x50-100 per extra preemption.
 	for k, p := range shapes2 {
 		// Serve: arrivals one by one in the quick tier, unconstrained in thorough
-		list = append(list, sc{with(p, func(q *c12sp) { q.serve, q.oneByOne = true, true }), 1, 0})
+		cheap := k == 0 || k == 1 || k == 3 || k == 5 || k == 6 // one client is turned away early
+		serveTier := 1
+		if k == 0 || k == 1 || k == 3 || k == 5 {
+			serveTier = 0 // 1-2.5 x 10^5 executions; the other shapes need > 6 x 10^5
+		}
+		list = append(list, sc{with(p, func(q *c12sp) { q.serve, q.oneByOne = true, true }), 1, serveTier})
 		list = append(list, sc{with(p, func(q *c12sp) { q.serve = true }), 1, 1})
 		// ServeConn: fully concurrent arrivals
 		list = append(list, sc{p, 1, 0})
-		cheap := k == 0 || k == 1 || k == 3 || k == 5 || k == 6 // one client is turned away early
 		if cheap {
 			list = append(list, sc{p, 2, 0})
 		} else {
